@@ -368,6 +368,10 @@ type c18Rej struct {
 	Body int `json:"b"`             // bytes of request body each of them carries
 	Cfg  int `json:"cfg,omitempty"` // server quic.Config, see c18RejConfig
 	Par  int `json:"par,omitempty"` // 0 one after the other, 1 the N rejected uploads concurrently
+	// 0: the valid message follows as soon as the last early answer has arrived (the rejected
+	//    bodies are still in slow start); 1: 3 s of virtual time later (the client has pushed as
+	//    much of the rejected bodies as flow control lets it)
+	Wait int `json:"w,omitempty"`
 }
 
 const c18RejMaxHeaderBytes = 2048
@@ -384,7 +388,7 @@ var c18RejBodies = [][]int{
 }
 
 func (r c18Rej) String() string {
-	return fmt.Sprintf("early-reject[%s x%d body=%d %s par=%d]", c18RejKinds[r.Kind], r.N, r.Body, c18RejCfgs[r.Cfg], r.Par)
+	return fmt.Sprintf("early-reject[%s x%d body=%d %s par=%d wait=%d]", c18RejKinds[r.Kind], r.N, r.Body, c18RejCfgs[r.Cfg], r.Par, r.Wait)
 }
 
 // c18RejCases enumerates the early-rejection histories x the valid messages that follow them.
@@ -399,8 +403,10 @@ func c18RejCases(followUps []c18Msg, seed uint64) []c18Case {
 							if par == 1 && n == 1 {
 								continue
 							}
-							for _, f := range followUps {
-								out = append(out, c18Case{Msg: f, Real: real, Seed: seed, Rej: &c18Rej{Kind: kind, N: n, Body: b, Cfg: cfg, Par: par}})
+							for wait := 0; wait < 2; wait++ {
+								for _, f := range followUps {
+									out = append(out, c18Case{Msg: f, Real: real, Seed: seed, Rej: &c18Rej{Kind: kind, N: n, Body: b, Cfg: cfg, Par: par, Wait: wait}})
+								}
 							}
 						}
 					}
